@@ -77,7 +77,7 @@ func c20SplitCallers(c *eng.Ctx) {
 // c20Config: the configured (shares, threshold) pairs are sane before they are used or cached.
 func c20Config(c *eng.Ctx) {
 	if f := c.Fn("vault.(*SealConfig).Validate"); f != nil && len(f.Params) == 1 {
-		s := f.Params[0].Name()
+		s := eng.VarName(f.Params[0])
 		c.Clause("R2", "C20.4c")
 		ok := eng.SuccessReturns(f, 0)
 		if c.Floor(f, "nil-error returns of Validate", len(ok), 1) {
@@ -97,7 +97,7 @@ func c20Config(c *eng.Ctx) {
 		}
 	}
 	if f := c.Fn("vault.(*SealConfig).baseValidate"); f != nil && len(f.Params) == 1 {
-		s := f.Params[0].Name()
+		s := eng.VarName(f.Params[0])
 		c.Clause("R2", "C20.4c")
 		ok := eng.SuccessReturns(f, 0)
 		if c.Floor(f, "nil-error returns of baseValidate", len(ok), 1) {
